@@ -3,6 +3,8 @@ import specs.checkers_pure as pure
 import specs.checkers_trace as tr
 import specs.binding as binding
 import specs.wrapper as wrapper
+import specs.violation as violation
+import specs.invariants as invariants
 from specs.lib import REG
 
 
@@ -14,14 +16,21 @@ U = {}
 U.update(_by_addr(pure.PURE_SPECS))
 U.update(_by_addr(tr.TRACE_SPECS))
 U.update(_by_addr([binding.KFC, wrapper.UNPACK] + wrapper.WRAPPERS))
+U.update(_by_addr(invariants.INV_SPECS + invariants.INV_WRAPPERS))
 
 CHECKER_CONE = [
     "_assert_no_invalid_kwargs", "_assert_resolved_kwargs_valid", "select_condition_kwargs", "select_capture_kwargs",
-    "select_error_kwargs", "kwargs_from_call", "not_check", "_unpack_pre_snap_posts",
+    "select_error_kwargs", "kwargs_from_call", "not_check", "_unpack_pre_snap_posts", "_create_violation_error",
     "_assert_preconditions", "_assert_preconditions_async", "_capture_old", "_capture_old_async",
     "_assert_postconditions", "_assert_postconditions_async",
     "decorate_with_checker/wrapper[sync]", "decorate_with_checker/wrapper[async]",
 ]
+
+INV_CONE = [
+    "_assert_invariant", "_find_self", "_decorate_with_invariants/wrapper[0]", "_decorate_with_invariants/wrapper[1]",
+    "_decorate_with_invariants/wrapper[2]", "_decorate_new_with_invariants/wrapper",
+]
+INV_UNITS = set(INV_CONE)
 
 # obligations that exist only because of one property's statement carry meta["props"]; everything else in a unit of
 # the cone counts for every property listed here
@@ -29,10 +38,10 @@ PROPS = {
     "C01": dict(units=CHECKER_CONE, replay="call", hints=["falsy_error", "groups"]),
     "C02": dict(units=CHECKER_CONE, replay="call", hints=["falsy_error post", "body"]),
     "C08": dict(units=CHECKER_CONE, replay="call", hints=["posts", "fault"]),
-    "C11": dict(units=CHECKER_CONE, replay="call", hints=["reentrant", "fault"]),
-    "C13": dict(units=CHECKER_CONE, replay="call", hints=["async"]),
-    "C16": dict(units=CHECKER_CONE, replay="call", hints=["groups", "posts"]),
-    "C10": dict(units=["decorate_with_checker/wrapper[sync]", "decorate_with_checker/wrapper[async]"], replay="call",
+    "C11": dict(units=CHECKER_CONE + INV_CONE, replay="call", hints=["reentrant", "fault"]),
+    "C13": dict(units=CHECKER_CONE + INV_CONE, replay="call", hints=["async"]),
+    "C16": dict(units=CHECKER_CONE + INV_CONE, replay="call", hints=["groups", "posts"]),
+    "C10": dict(units=["decorate_with_checker/wrapper[sync]", "decorate_with_checker/wrapper[async]"] + INV_CONE, replay="call",
                 hints=["body_recursion", "reentrant"]),
 }
 
@@ -48,4 +57,5 @@ REPLAY_HINTS = [
     ("emit.Viol", ["falsy_error", "groups"]),
     ("loop(", ["groups", "posts"]),
     ("the_very_object", ["body"]),
+    ("emit.Inv", ["nested constructor", "check_on"]),
 ]
